@@ -754,6 +754,14 @@ def run(ctx):
     summary = payload_summary(ctx)
     rule_M2(ctx, fx, summary)
     rule_M4(ctx, fx)
+    # relabelling is one of the edits of the statement: a clone's data list must stay with the node whose
+    # cached vectors were accumulated from it (same rule object as C07.V2)
+    from . import C07
+
+    from ..formula import imported
+
+    ctx._own_rules = set(ctx.rule_min)
+    imported(ctx, C07.rule_V2)
 
 
 # Self-test catalogue: one textual edit each, applied to a scratch copy (see selftest.py).
